@@ -187,10 +187,19 @@ def c20_4(c: Ctx) -> None:
         else:
             c.fail(u, f'semaphore created as {U(k)}', 'the concurrency bound is not the configured semaphore_limit', node=k)
         st = q.stmt_of(k)
-        if not (isinstance(st, ast.Assign) and isinstance(st.targets[0], ast.Subscript)):
+        subs = [t for t in st.targets if isinstance(t, ast.Subscript)] if isinstance(st, ast.Assign) else []
+        if not subs:
             c.fail(u, f'semaphore not stored in the registry: {q.stmt_text(st, 60)}', 'every call gets a fresh semaphore: no bound at all', node=st)
             continue
-        reg, keyv = U(st.targets[0].value), U(st.targets[0].slice)
+        reg, keyv = U(subs[0].value), U(subs[0].slice)
+        # locals that hold the registered semaphore: `x = REG.get(key)` / `x = REG[key]` / the chained store `x = REG[key] = Semaphore(..)`
+        holders = {t.id for t in st.targets if isinstance(t, ast.Name)}
+        lookups_ = set()
+        for n_ in own_nodes(u.node):
+            if isinstance(n_, ast.Assign) and len(n_.targets) == 1 and isinstance(n_.targets[0], ast.Name):
+                v_ = n_.value
+                if U(v_) == f'{reg}[{keyv}]' or (isinstance(v_, ast.Call) and call_name(v_) == 'get' and isinstance(v_.func, ast.Attribute) and U(v_.func.value) == reg and v_.args and U(v_.args[0]) == keyv and len(v_.args) == 1):
+                    lookups_.add(n_.targets[0].id)
         w = q.enclosing(st, (ast.With,))
         if w is not None and any('LOCK' in U(it.context_expr).upper() for it in w.items):
             c.ok(where(u, st), f'creation under `with {U(w.items[0].context_expr)}`')
@@ -201,13 +210,22 @@ def c20_4(c: Ctx) -> None:
         # creation only when absent (a loop-binding check may be OR-ed in: then the guard is a disjunction containing `key not in reg`)
         gi = q.enclosing(st, (ast.If,))
         disj = [U(v) for v in (gi.test.values if gi is not None and isinstance(gi.test, ast.BoolOp) and isinstance(gi.test.op, ast.Or) else ([gi.test] if gi is not None else []))]
-        if f'{keyv} not in {reg}' in disj:
+        if f'{keyv} not in {reg}' in disj or any(d == f'{x} is None' for d in disj for x in lookups_):
             c.ok(where(u, st), f'created only when `{keyv} not in {reg}`' + (' (or the cached one belongs to another event loop)' if len(disj) > 1 else ''))
         else:
             c.fail(u, f'semaphore creation not guarded by `{keyv} not in {reg}`', 'an existing semaphore is replaced: waiters on the old one are not counted against the limit', node=st)
         rets = [n for n in own_nodes(u.node) if isinstance(n, ast.Return) and n.value is not None and q.lexically_in(n, w) if w is not None]
-        if rets and all(U(r.value) == f'{reg}[{keyv}]' for r in rets):
-            c.ok(where(u, rets[0]), f'returns {reg}[{keyv}]')
+        def is_registered(v: ast.AST) -> bool:
+            if U(v) == f'{reg}[{keyv}]':
+                return True
+            if isinstance(v, ast.Name) and v.id in (holders | lookups_):
+                # every binding of the local is the registry entry (looked up, or just stored)
+                binds = [n_ for n_ in own_nodes(u.node) if isinstance(n_, ast.Assign) and any(isinstance(t, ast.Name) and t.id == v.id for t in n_.targets)]
+                return bool(binds) and all(any(isinstance(t, ast.Subscript) and U(t.value) == reg for t in b.targets) or (len(b.targets) == 1 and (U(b.value) == f'{reg}[{keyv}]' or (isinstance(b.value, ast.Call) and call_name(b.value) == 'get' and U(b.value.func.value) == reg))) for b in binds)
+            return False
+
+        if rets and all(is_registered(r.value) for r in rets):
+            c.ok(where(u, rets[0]), f'returns the entry of {reg}[{keyv}]')
         else:
             c.fail(u, f'returns {[U(r.value)[:40] for r in rets]}', 'the returned semaphore is not the registered one', node=st)
 
@@ -260,12 +278,15 @@ def c20_5(c: Ctx) -> None:
     for u in [x for x in c.prog.units.values() if x.module in (HLP, SVC)]:
         stores = []
         for n in own_nodes(u.node):
-            if isinstance(n, ast.Assign) and isinstance(n.value, ast.Call) and U(n.value.func) in LOOP_BOUND and isinstance(n.targets[0], ast.Subscript) and isinstance(n.targets[0].value, ast.Name) \
-                    and (n.targets[0].value.id in mi.globals_assign or n.targets[0].value.id in mi.globals_ann or n.targets[0].value.id.isupper()):
-                stores.append(n)
+            if isinstance(n, ast.Assign) and isinstance(n.value, ast.Call) and U(n.value.func) in LOOP_BOUND:
+                sub = next((t for t in n.targets if isinstance(t, ast.Subscript) and isinstance(t.value, ast.Name)
+                            and (t.value.id in mi.globals_assign or t.value.id in mi.globals_ann or t.value.id.isupper())), None)
+                if sub is not None:
+                    n._store_sub = sub  # type: ignore[attr-defined]
+                    stores.append(n)
         by_container: dict[str, list] = {}
         for s in stores:
-            by_container.setdefault(s.targets[0].value.id, []).append(s)
+            by_container.setdefault(s._store_sub.value.id, []).append(s)
         for cont, ss in by_container.items():
             n_sites += 1
             has_loop = any(isinstance(n, ast.Call) and call_name(n) in ('get_running_loop', 'get_event_loop') for n in own_nodes(u.node))
@@ -275,11 +296,22 @@ def c20_5(c: Ctx) -> None:
                 # the (re)creation guard must include a comparison of the remembered loop with the running loop
                 if not (has_loop and gi is not None and any(_compares_with_running_loop(u, x) for x in ast.walk(gi.test))):
                     unchecked.append(s_)
+                    continue
+                # ... and the loop that is remembered for the entry is brought up to date together with the entry (otherwise the comparison fails for ever after the first
+                # replacement and every call creates another semaphore)
+                running = {n.targets[0].id for n in own_nodes(u.node) if isinstance(n, ast.Assign) and isinstance(n.targets[0], ast.Name) and isinstance(n.value, ast.Call) and call_name(n.value) in ('get_running_loop', 'get_event_loop')}
+                upd = [x for b in gi.body for x in ast.walk(b) if isinstance(x, ast.Assign) and any(isinstance(t, ast.Subscript) and isinstance(t.value, ast.Name) and t.value.id != cont for t in x.targets)
+                       and ((isinstance(x.value, ast.Name) and x.value.id in running) or (isinstance(x.value, ast.Call) and call_name(x.value) in ('get_running_loop', 'get_event_loop')))]
+                if upd:
+                    c.ok(where(u, upd[0]), f'the remembered loop is updated together with the entry: {q.stmt_text(upd[0], 60)}')
+                else:
+                    c.fail(u, f'the loop remembered for {cont}[{U(s_._store_sub.slice)}] is not updated when the entry is (re)created', 'after the first replacement the remembered loop never matches the running loop again: '
+                           'every call creates and registers a fresh semaphore, so nothing is bounded any more', node=s_)
             prim = U(ss[0].value.func)
             if not unchecked:
                 c.ok(where(u, ss[0]), f'{prim} cached in {cont} is validated against the running loop ({len(ss)} creation sites)')
             else:
-                keys = sorted({U(x.targets[0].slice) for x in unchecked})
+                keys = sorted({U(x._store_sub.slice) for x in unchecked})
                 c.fail(u, f'{prim} cached in {cont}[{", ".join(keys)}] without loop check', 'a semaphore first contended in one event loop makes every contended call in a later loop fail with "bound to a different event loop"', node=ss[0],
                        witness=[f'{where(u, s)}: {q.stmt_text(s, 90)}' for s in ss] + [f'sibling {where(sib)} compares the stored loop with asyncio.get_running_loop()'])
     if n_sites == 0:
